@@ -551,4 +551,5 @@ func main() {
 	genAppends(repo, outDir)
 	genProto(repo, outDir)
 	genGasBinding(repo, outDir)
+	genPure(repo, outDir)
 }
